@@ -52,7 +52,7 @@ def streams(tier, rng):
         if L.fits(c):
             rand.append(c)
     cut = L.tuned_cut_cases(rng, n_cut)
-    cli = L.c19_cli_cases(rng, 45 if not big else 300)
+    cli = L.c19_cli_cases(rng, 60 if not big else 300)
     return [
         L.make_stream("c19-corpus", "c19", L.corpus("C19")),
         L.c19_cli_stream("c19-e2e-max-time-covers-tuning", cli),
